@@ -46,6 +46,11 @@ def case_strategy(draw, tier="quick"):
     if expr["filter"] is None:
         expr["filter2"] = None
     expr["agg"] = draw(st.sampled_from(GAGGS if group else AGGS))
+    if expr["agg"] in ("var", "std"):
+        expr["ddof"] = draw(st.sampled_from([1, 1, 0]))
+    # build the grouped frame expression *before* the grouper expression (the frame batch then
+    # reaches the join of frame and grouper first)
+    expr["late_grouper"] = bool(group in ("series", "mod2") and draw(st.booleans()))
     if expr["agg"] == "value_counts":
         expr["base"] = draw(st.sampled_from(["y", "g", "x"]))
         expr["arith"] = None
@@ -59,15 +64,20 @@ def apply_expr(df, expr, streaming):
     """the same expression on a streamz DataFrame (streaming=True) or a pandas one"""
     f = prepare(df, expr)
     if expr["group"]:
+        sel = {"xy": ["x", "y"], "x": "x", "y": "y", "z": "z"}[expr["base"]]
+        kw = {"ddof": expr["ddof"]} if "ddof" in expr else {}
+        if expr.get("late_grouper"):
+            wide = f[[c for c in ("x", "y", "z") if c in f.columns]] * 1
+            key = f.g if expr["group"] == "series" else f.g % 2
+            return getattr(wide.groupby(key)[sel], expr["agg"])(**kw)
         if expr["group"] == "col":
             gb = f.groupby("g")
         elif expr["group"] == "series":
             gb = f.groupby(f.g)
         else:
             gb = f.groupby(f.g % 2)
-        sel = {"xy": ["x", "y"], "x": "x", "y": "y", "z": "z"}[expr["base"]]
         gb = gb[sel]
-        return getattr(gb, expr["agg"])()
+        return getattr(gb, expr["agg"])(**kw)
     if expr["base"] == "xy":
         sel = f[["x", "y"]]
     else:
